@@ -70,6 +70,10 @@ def cases(chk):
             yield "chunking", {"frames": ["03", ("%02x" % (k * 7 % 251 + 1)) * n, "0405", "06"], "cuts": [2, 5, n // 2, n + 7], "tail": 0}
     if not chk.quick():
         yield "chunking", {"frames": ["aa" * ((1 << 24) - 1), "bb"], "cuts": [1, 1 << 23], "tail": 0}
+    # very many small frames in ONE read (a server flushing a backlog): the number of frames a single call hands up has no bound
+    for n, sz in ((1100, 1), (2500, 3), (5000, 2)) if chk.quick() else ((1100, 1), (2500, 3), (5000, 2), (40000, 2)):
+        yield "chunking", {"frames": [("%02x" % (i % 251 + 1)) * sz for i in range(n)], "cuts": [], "tail": 0}
+        yield "chunking", {"frames": [("%02x" % (i % 251 + 1)) * sz for i in range(n)], "cuts": [2, (3 + sz) * (n // 2) + 1], "tail": 0}
     yield "zero", {"chunks": ["000000", "000000", "000001", "09"]}
     yield "zero", {"chunks": ["00000000000107"]}
     yield "disabled", {"chunks": ["000001", "07", "-"]}
